@@ -140,6 +140,16 @@ EdgeCases ==
         o \in {<<"abs", 4>>, <<"abs", -4>>, <<"abs", 0>>, <<"pct", 25>>, <<"pct", 150>>, <<"pct", 0>>, <<"pct", 100>>},
         a \in {"tl", "c"}}
 
+\* a line (or polyline) drawn between locations of referenced elements: xy1="#r@tr", xy2="#q@l 1 -2",
+\* points="#r@tl #q@c"; each end is the location plus its offset
+LinePtCases == UNION {
+    {[fam |-> "rel", form |-> "linepts", shape |-> sh, ref |-> r, ref2 |-> Shift(r, 40, 24), l1 |-> l1, l2 |-> l2, dx |-> d[1], dy |-> d[2],
+      p1 |-> Loc(r, l1), p2 |-> <<Loc(Shift(r, 40, 24), l2)[1] + d[1], Loc(Shift(r, 40, 24), l2)[2] + d[2]>>,
+      exp |-> B(0, 0, 0, 0)] :
+        r \in RefBoxes, l1 \in LocNames, l2 \in {"tl", "c", "r", "b"},
+        \* (inside a points list a location is substituted as it stands; numbers after it are further points)
+        d \in (IF sh = "line" THEN {<<0, 0>>, <<4, -8>>} ELSE {<<0, 0>>})} : sh \in {"line", "polyline"}}
+
 \* per-axis scalar references: x="#r~x2" etc.; the other axis is absolute
 ScalarCases ==
     {[fam |-> "rel", form |-> "scalar", refkind |-> rk, ref |-> r, kind |-> "rect", w |-> 8, h |-> 4,
@@ -193,7 +203,7 @@ ChainCases ==
         r \in RefBoxes, d1 \in {"h", "H", "v", "V"}, d2 \in {"h", "H", "v", "V"}, g \in {0, 4}}
 
 RelCases == DirCases \cup LocCases \cup EdgeCases \cup ScalarCases \cup SizeCases \cup ChainCases \cup PointRefCases
-            \cup DeltaCases \cup ReusePosCases
+            \cup DeltaCases \cup ReusePosCases \cup LinePtCases
 
 \* identities of the layout reference, checked on every case
 RelIdentities ==
